@@ -424,6 +424,15 @@
    ((bg_size)G_Q >= (g)->size || bg_ghost_src == G_Q || PR_LEN_Q(pr) > 0 || V_AT_Q(dist) == BG_VERTEX_MAX) && \
    ((bg_size)G_P >= (g)->size || bg_ghost_src == G_P || PR_LEN_P(pr) > 0 || V_AT_P(dist) == BG_VERTEX_MAX) && \
    PR_P_IN_Q(pr) <= 1 && (PR_P_IN_Q(pr) == 0 || ((bg_size)G_P < (g)->size && (bg_size)G_Q < (g)->size && D_CNT_PQ(g) > 0)))
+/* ---- list<Edge> walk */
+#define ESIT_OK(it, s)                                                        \
+  ((it).remPQ <= (s).nPQ && (it).remQP <= (s).nQP && (it).remOther <= (s).nOther && (it).bound == (s).bound && \
+   (BG_ESEQ_LEFT(it) == 0 ||                                                  \
+    (((it).cur.first == G_P && (it).cur.second == G_Q) ? (it).remPQ > 0       \
+     : (G_P != G_Q && (it).cur.first == G_Q && (it).cur.second == G_P) ? (it).remQP > 0 \
+     : ((it).remOther > 0 && (bg_size)(it).cur.first < (it).bound && (bg_size)(it).cur.second < (it).bound))))
+#define ESEQ_QP(s) (G_P == G_Q ? (s).nPQ : (s).nQP)
+#define ESIT_REM_QP(it) (G_P == G_Q ? (it).remPQ : (it).remQP)
 /* ---- unordered_set<VertexIndex> S and a walk over it */
 #define S_HAS_P(s) ((s).hasP)
 #define S_HAS_Q(s) (G_P == G_Q ? (s).hasP : (s).hasQ)
